@@ -109,9 +109,31 @@ def tr_overlap(ctx):
     cons = ["isinstance(t, WrappingType) -> t.isWrapping; isinstance(t, GraphQLLeafType) -> the parameter isLeafType",
             "type(a) != type(b) -> !Ty.sameCtor a b; t.type -> t.inner; a != b on types -> by-name inequality of type expressions",
             "self-recursion -> the parameter rec_types_conflict (step functional; the equation below closes the knot)"]
+    A, V = OP("A"), OP("V")
+    same_args = py2lean.translate_function(
+        src, "_same_arguments", "_same_arguments",
+        params={"args_1": TList(A), "args_2": TList(A)},
+        binders="{A V : Type} (name_lt : String → String → Bool) (arg_name : A → String) (arg_value : A → V) "
+                "(same_value : V → V → Bool) (args_1 args_2 : List A)",
+        externals={"_same_value": Ext("same_value", BOOL)},
+        attrs={".name.value": ("arg_name", A, OP("String")), ".value": ("arg_value", A, V)},
+        consts={"sorted_lt": ("name_lt", None)})
+    same_value = py2lean.translate_function(
+        src, "_same_value", "_same_value",
+        params={"value_1": V, "value_2": V},
+        binders="{V K P W : Type} [BEq K] [BEq P] [BEq W] (class_of : V → K) (isListValue isObjectValue isNullValue isVariable : V → Bool) "
+                "(print_ast : V → P) (value_of : V → W) (value_1 value_2 : V)",
+        externals={"type": Ext("class_of", OP("K")), "print_ast": Ext("print_ast", OP("P"))},
+        isinstance_map={"_ast.ListValue": "isListValue", "_ast.ObjectValue": "isObjectValue",
+                        "_ast.NullValue": "isNullValue", "_ast.Variable": "isVariable"},
+        attrs={".value": ("value_of", V, OP("W"))})
+    note = ("/- `_same_arguments` / `_same_value` are abstracted over the AST: `a.name.value` = arg_name a, `a.value` = arg_value a,\n"
+            "   `type(v)` = class_of v, `isinstance(v, _ast.X)` = isX v, `print_ast`, `v.value` = value_of v are parameters;\n"
+            "   `sorted(key=...)` is the stable insertion sort `Py.sortedBy` with `<` on names as a parameter. -/")
     return {"PyGqlModel/Generated/TrOverlap.lean":
-            _file("src/py_gql/validation/rules/overlapping_fields_can_be_merged.py (_types_conflict)", [(step, pysrc, cons)],
-                  head=HEAD.replace("import PyGqlModel.PyPrelude", "import PyGqlModel.Ty"))}
+            _file("src/py_gql/validation/rules/overlapping_fields_can_be_merged.py (_types_conflict, _same_arguments, _same_value)",
+                  [(step, pysrc, cons), same_args, same_value], note,
+                  head=HEAD.replace("import PyGqlModel.PyPrelude", "import PyGqlModel.Ty\nimport PyGqlModel.PyPrelude"))}
 
 
 # ---- _string_utils.parse_block_string (C02) ----------------------------------------------------------------
